@@ -20,6 +20,22 @@ def load():
     cache = os.path.join(facts.CACHE, "stack-%s.json" % th)
     if os.path.exists(cache):
         return json.load(open(cache))
+    # one build at a time in the shared target directory (concurrent checks would delete each other's object files);
+    # whoever waited re-reads the cache first
+    import fcntl
+    os.makedirs(facts.CACHE, exist_ok=True)
+    lockf = open(os.path.join(facts.CACHE, "stack.lock"), "w")
+    fcntl.flock(lockf, fcntl.LOCK_EX)
+    try:
+        if os.path.exists(cache):
+            return json.load(open(cache))
+        return _build(cache)
+    finally:
+        fcntl.flock(lockf, fcntl.LOCK_UN)
+        lockf.close()
+
+
+def _build(cache):
     tgt = os.path.join(facts.CACHE, "stack-target")
     env = dict(os.environ)
     env.update({"CARGO_NET_OFFLINE": "true", "CARGO_TARGET_DIR": tgt, "RUSTFLAGS": "-Awarnings -Csymbol-mangling-version=v0"})
@@ -46,5 +62,7 @@ def load():
         sizes[dp] = max(sz, sizes.get(dp, 0))
     if len(sizes) < 500:
         raise facts.Broken("stack-size table suspiciously small (%d entries)" % len(sizes))
-    json.dump(sizes, open(cache, "w"))
+    tmp = cache + ".tmp%d" % os.getpid()
+    json.dump(sizes, open(tmp, "w"))
+    os.replace(tmp, cache)
     return sizes
